@@ -173,6 +173,9 @@ class Retag:
         return self.rep.inst(self.rule, desc, nontrivial, sample)
 
 
+_IMPORT_CACHE = {}
+
+
 def import_rules(rep, fx, source_prop, as_rule, only_rules=None, floor=1, what="", key_filter=None):
     """Re-evaluate another property's rules on the same facts and import their obligations under `as_rule` of this report
     (a necessary clause shared between two properties is checked by one implementation). Fails closed."""
@@ -183,16 +186,21 @@ def import_rules(rep, fx, source_prop, as_rule, only_rules=None, floor=1, what="
     if source_prop in _IN_PROGRESS:
         return 0
     mod = importlib.import_module(f"slx.rules.{source_prop.lower()}")
-    r = Report(source_prop, "quick", 0)
-    r.finish = lambda *a, **k: 0
-    _IN_PROGRESS.add(source_prop)
-    try:
-        mod.check(fx, r, "quick")
-    except Exception as e:
+    # one evaluation per (property, set of properties being evaluated above it) and process: the rules are deterministic on the facts
+    ck = (id(fx), source_prop, frozenset(_IN_PROGRESS))
+    r = _IMPORT_CACHE.get(ck)
+    if r is None:
+        r = Report(source_prop, "quick", 0)
+        r.finish = lambda *a, **k: 0
+        _IN_PROGRESS.add(source_prop)
+        try:
+            mod.check(fx, r, "quick")
+        except Exception as e:
+            _IN_PROGRESS.discard(source_prop)
+            rep.oblige(False, as_rule, f"shared-engine:{source_prop}", "-", f"the rules shared with {source_prop} crashed: {e}")
+            return 0
         _IN_PROGRESS.discard(source_prop)
-        rep.oblige(False, as_rule, f"shared-engine:{source_prop}", "-", f"the rules shared with {source_prop} crashed: {e}")
-        return 0
-    _IN_PROGRESS.discard(source_prop)
+        _IMPORT_CACHE[ck] = r
     bad = {}
     for v in r.violations:
         if (only_rules is None or v["rule"] in only_rules) and (key_filter is None or key_filter(v["key"])):
